@@ -53,7 +53,7 @@ void fail(const std::string& key, const std::string& msg) { vf::violation(key, m
 ////////////////////////////////////////////////////////////////////////////////
 // lock-free pointer table with one 32-bit value per key (relaxed atomics only)
 struct PtrTable {
-  static constexpr size_t N = 1 << 15;
+  static constexpr size_t N = 1 << 20;  // was 1<<15: a thorough PageHeap episode (capacity 64, 7 threads, batches of up to 129 system pages) filled it
   std::atomic<uintptr_t>* k;
   std::atomic<uint32_t>* v;
   std::atomic<int64_t> live {0};
@@ -62,7 +62,7 @@ struct PtrTable {
     for (size_t i = 0; i < N; ++i) { k[i].store(0, std::memory_order_relaxed); v[i].store(0, std::memory_order_relaxed); }
     live.store(0, std::memory_order_relaxed);
   }
-  static size_t h(uintptr_t p) { return size_t(((p >> 6) * 0x9e3779b97f4a7c15ULL) >> 49); }
+  static size_t h(uintptr_t p) { return size_t(((p >> 6) * 0x9e3779b97f4a7c15ULL) >> 44); }
   long find(uintptr_t p) const {
     for (size_t i = h(p), n = 0; n < N; i = (i + 1) & (N - 1), ++n) {
       uintptr_t c = k[i].load(std::memory_order_relaxed);
@@ -412,6 +412,10 @@ void run_pages(uint64_t seed, uint64_t e) {
     });
     vf::watchdog().arm(false);
     if (vf::failed()) break;
+    {  // a harness capacity problem (reported as inconclusive) must not be turned into violations by the oracles below
+      std::lock_guard<std::mutex> g(vf::report().mu);
+      if (!vf::report().inconclusive.empty()) return;
+    }
     // quiescent: conservation
     int64_t held = w.held.load();
     int64_t kept = 0;
